@@ -75,6 +75,11 @@ def split_link(rng, root):
     h = rng.choice(ls); kids = list(h); cut = rng.randint(1, len(kids) - 1)
     new = etree.Element(w('hyperlink'))
     for k, v in h.attrib.items(): new.set(k, v)
+    # attributes that are not part of the target (r:id / w:anchor) may differ between the pieces
+    for name, val in (('tooltip', 'tip'), ('history', '1'), ('tgtFrame', '_blank'), ('docLocation', 'loc')):
+        if rng.random() < 0.25:
+            if new.get(w(name)) is None: new.set(w(name), val)
+            else: del new.attrib[w(name)]
     for c in kids[cut:]: new.append(c)
     new.tail = h.tail; h.tail = None
     h.addnext(new)
